@@ -575,7 +575,8 @@ def main(argv):
             'functions_under_contract': fns,
             'units': [{'unit': r['unit'], 'status': r['status'], 'verified_items': r.get('verified'), 'errors': r.get('n_errors'),
                        'smt_ms': r.get('smt_ms'), 'wall_s': round(r.get('wall_s', 0), 2), 'cached': r.get('cached'),
-                       'canary': r.get('canary')} for r in results],
+                       'canary': r.get('canary'), 'seed_retries': r.get('seed_retries', []),
+                       'unstable_under_default_seed': bool(r.get('unstable_under_default_seed'))} for r in results],
             'solver_time_ms': smt_ms,
             'samples': samples,
             'rule': 'obligations = ensures clauses + loop invariant clauses + built-in no-panic sites (unwrap/index/slice/arithmetic) + call sites of contracted functions that carry a precondition + 1 (termination / remaining call preconditions) per function, counted by the weaver on the extracted text of this run',
